@@ -63,7 +63,8 @@ class ChunkParser:
             elif line.strip() == b'':
                 pass
             else:
-                self.size = int(line, 16)
+                # Ignore chunk extensions, if any
+                self.size = int(line.split(b';', 1)[0], 16)
                 # Last chunk carries no data, it is followed by optional
                 # trailer fields and a blank line, handled above.
                 if self.size > 0:
